@@ -217,6 +217,11 @@ def Q_e(vs):
     return "?e:" + vals(vs)
 
 
+def Q_em(vs):
+    """enforce_mut (the &mut self entry point)"""
+    return "?em:" + vals(vs)
+
+
 def Q_ec(k, vs):
     return "?ec:%s:%s" % (enc(k), vals(vs))
 
